@@ -18,6 +18,7 @@ import KinModel.Style
 import KinModel.Lemmas.C05Str
 import KinModel.Lemmas.C05Dec
 import KinModel.Lemmas.C05Cells
+import KinModel.Lemmas.C05Eq
 import KinModel.Gen.StyleCells
 namespace KinModel.Style
 
@@ -282,6 +283,41 @@ theorem makeObject_lookup (prim : PT → Str → PR) (props : List (Str × Str))
   | some base =>
     simp [hb] at h; subst h
     exact buildProps_lookup prim props sprops base hnd hb k
+
+/-- … and with an additionalProperties schema (full strength since the repair of F-C05-4): a declared key holds the
+value decoded with its *own* schema, an undeclared key the value decoded with the additionalProperties schema — for
+every schema, every request, every order of the pairs -/
+theorem makeObject_lookup_addl (prim : PT → Str → PR) (props : List (Str × Str)) (sprops : List (Str × PS)) (a : PS)
+    (res : List (Str × PV)) (hnd : (sprops.map Prod.fst).Nodup) (h : makeObject prim props sprops (some a) = some res) (k : Str) :
+    res.lookup k = if hasKey k sprops then propVal prim props sprops k else addlVal prim props a k := by
+  unfold makeObject at h
+  cases hb : buildProps prim props sprops with
+  | none => simp [hb] at h
+  | some base =>
+    simp only [hb] at h
+    cases he : buildAddl prim props a ((dedup (props.map Prod.fst)).filter (fun k => !hasKey k sprops)) with
+    | none => simp [he] at h
+    | some extra =>
+      simp [he] at h; subst h
+      have hbase := buildProps_lookup prim props sprops base hnd hb k
+      have hextra := buildAddl_lookup prim props a _ extra ((dedup_nodup _).filter _) he k
+      rw [List.lookup_append, hbase, hextra]
+      cases hk : hasKey k sprops with
+      | true => simp [hk]
+      | false =>
+        have hpv : propVal prim props sprops k = none := by
+          simp [propVal, lookup_none_of_not_hasKey k sprops hk]
+        simp only [hpv, Option.none_or, List.mem_filter, mem_dedup, hk, Bool.not_false, and_true, Bool.false_eq_true, if_false]
+        split
+        · rfl
+        · next hm => simp [addlVal, lookupLast_none_of_not_mem k props hm]
+
+/-- in particular a declared property never depends on the additionalProperties schema (the general form of the
+former witness of F-C05-4) -/
+theorem makeObject_declared_ignores_addl (prim : PT → Str → PR) (props : List (Str × Str)) (sprops : List (Str × PS)) (a : PS)
+    (res : List (Str × PV)) (hnd : (sprops.map Prod.fst).Nodup) (h : makeObject prim props sprops (some a) = some res)
+    (k : Str) (hk : hasKey k sprops = true) : res.lookup k = propVal prim props sprops k := by
+  rw [makeObject_lookup_addl prim props sprops a res hnd h k, if_pos hk]
 
 /-- an odd number of comma-separated items is never an object (explode=false): ParseError -/
 theorem objOut_odd_is_parse_error (prim : PT → Str → PR) (found : Bool) (src : Str) (sprops : List (Str × PS)) (addl : Option PS)
@@ -776,6 +812,186 @@ theorem listEq_impl_eq_spec_partial (es : List EV) (xs : List PV) (h : ∀ x ∈
 theorem cookieArr_flavour_partial (prim : PT → Str → PR) (st : Sty) (ex : Bool) (r : Req) (t : PT) (h : ex = false) :
     cookieArr prim true st ex r t = cookieArr prim false st ex r t := by
   subst h; simp [cookieArr]
+
+/-! ### code = specification outside the classes: every single-leaf schema, every cell, every request -/
+
+/-- the two flavours of the form-style object decoder agree whenever the request is outside QueryObjAbsent and the
+schema outside QueryObjNoProps -/
+theorem queryObj_flavour_partial (prim : PT → Str → PR) (name : Str) (st : Sty) (ex : Bool) (r : Req)
+    (sprops : List (Str × PS)) (addl : Option PS)
+    (habs : st = .form → ex = true → addl = none → (firstVals r.query).any (fun kv => hasKey kv.1 sprops) = true)
+    (hnp : sprops = [] → addl = none) :
+    queryObj prim false false name st ex r sprops addl = queryObj prim true true name st ex r sprops addl := by
+  unfold queryObj
+  by_cases hst : st ≠ .form
+  · rw [if_pos hst, if_pos hst]
+  · rw [if_neg hst, if_neg hst]
+    have hst' : st = .form := by
+      cases st <;> simp at hst ⊢
+    have hc : (true && ex && addl.isNone && !(firstVals r.query).any (fun kv => hasKey kv.1 sprops)) = false := by
+      cases ex with
+      | false => simp
+      | true =>
+        cases addl with
+        | some a => simp
+        | none => simp [habs hst' rfl rfl]
+    rw [hc]
+    simp only [Bool.false_and, Bool.false_eq_true, if_false]
+    split
+    · rfl
+    · rfl
+    · next props _ =>
+      cases hm : makeObject prim props sprops addl with
+      | none => rfl
+      | some kvs =>
+        simp only
+        cases sprops with
+        | cons a b => simp [objFound]
+        | nil =>
+          have ha := hnp rfl
+          subst ha
+          rw [makeObject_nil_none] at hm
+          cases hm
+          simp [objFound, queryObjFound]
+
+/-- one leaf: the code's decoder is the specification's outside the three decoder-level classes (stated per leaf) -/
+theorem decodeLeaf_flavour_partial (c : Cell) (name : Str) (r : Req) (l : Leaf) (hea : earlyAbsent c r = false)
+    (hdeep : ∀ sp rq, l = .deep sp rq → c.loc = .query ∧ c.style = .deepObject)
+    (hck : c.loc = .cookie → c.explode = true → leafIsPrim l = true)
+    (hqa : c.loc = .query → c.style = .form → c.explode = true → leafQueryObjAbsent r l = false)
+    (hnp : c.loc = .query → leafNoProps l = false) :
+    decodeLeaf impl c name r l = decodeLeaf spec c name r l := by
+  obtain ⟨loc, st, ex⟩ := c
+  simp only at hdeep hck hqa hnp
+  cases l with
+  | prim ps =>
+    cases loc <;> simp [decodeLeaf, impl, spec, specPrim_eq_parsePrim]
+  | arr items mn mx en =>
+    cases loc <;> simp only [decodeLeaf, impl, spec, specPrim_eq_parsePrim]
+    have hex : ex = false := by
+      cases ex with
+      | false => rfl
+      | true => simpa [leafIsPrim] using hck rfl rfl
+    subst hex
+    simp [cookieArr]
+  | obj sprops rq addl =>
+    cases loc <;> simp only [decodeLeaf, impl, spec, specPrim_eq_parsePrim]
+    · have hnp' : sprops = [] → addl = none := by
+        intro e; subst e
+        cases addl with
+        | none => rfl
+        | some a => simpa [leafNoProps] using hnp rfl
+      split
+      · cases addl with
+        | none => rfl
+        | some a =>
+          simp only
+          cases sprops with
+          | nil => cases hnp' rfl
+          | cons kv rest => simp [queryDeepFlatA, objFound]
+      · apply queryObj_flavour_partial
+        · intro hst hex hadd
+          subst hst hex hadd
+          simpa [leafQueryObjAbsent] using hqa rfl rfl rfl
+        · exact hnp'
+    · have hex : ex = false := by
+        cases ex with
+        | false => rfl
+        | true => simpa [leafIsPrim] using hck rfl rfl
+      subst hex
+      simp [cookieObj]
+  | deep sprops rq =>
+    obtain ⟨hl, hst⟩ := hdeep sprops rq rfl
+    subst hl hst
+    simp [decodeLeaf, impl, spec, specPrim_eq_parsePrim]
+
+/-- **the decoders agree**: for every schema of the model — a leaf or an allOf / anyOf / oneOf over leaves — the code's
+decoder returns exactly what the specification's returns (value, found flag, error) on every request outside the three
+decoder-level classes. `hdeep` is the model's domain (nested property schemas are only modelled under style deepObject). -/
+theorem decodeStyled_impl_eq_spec_partial (p : Param) (r : Req)
+    (hdeep : ∀ l ∈ schLeaves p.schema, ∀ sp rq, l = .deep sp rq → p.cell.loc = .query ∧ p.cell.style = .deepObject)
+    (h1 : CookieExplode p = false) (h3 : QueryObjAbsent p r = false) (h4 : QueryObjNoProps p = false) :
+    decodeStyled impl p.cell p.name p.required r p.schema = decodeStyled spec p.cell p.name p.required r p.schema := by
+  obtain ⟨c, name, req, ae, sch⟩ := p
+  simp only at hdeep ⊢
+  unfold decodeStyled
+  cases hea : earlyAbsent c r with
+  | true => simp
+  | false =>
+    simp only [Bool.false_eq_true, if_false]
+    have hleaf : ∀ l ∈ schLeaves sch, decodeLeaf impl c name r l = decodeLeaf spec c name r l := by
+      intro l hl
+      apply decodeLeaf_flavour_partial c name r l hea (hdeep l hl)
+      · intro hloc hex
+        simp only [CookieExplode, hloc, hex, Bool.and_true, decide_true, Bool.true_and] at h1
+        have := any_false_mem _ _ h1 l hl
+        simpa using this
+      · intro hloc hst hex
+        have hq : r.query.isEmpty = false := by
+          cases c with
+          | mk loc st ex => simp only at hloc; subst hloc; simpa [earlyAbsent] using hea
+        simp only [QueryObjAbsent, hloc, hst, hex, hq, Bool.and_true, decide_true, Bool.true_and, Bool.not_false] at h3
+        exact any_false_mem _ _ h3 l hl
+      · intro hloc
+        simp only [QueryObjNoProps, hloc, decide_true, Bool.true_and] at h4
+        exact any_false_mem _ _ h4 l hl
+    cases sch with
+    | leaf l => exact hleaf l (by simp [schLeaves])
+    | allOf ls => exact decAllOf_congr _ _ ls _ _ hleaf
+    | anyOf ls => exact decAnyOf_congr _ _ _ ls _ hleaf
+    | oneOf ls => exact decOneOf_congr _ _ _ ls _ _ hleaf
+
+/-- **code = specification** (the full-strength statement `∀ p r, validateParameter p r = validateSpec p r` is false:
+the four witnesses below). For every parameter with a single-leaf schema — every cell, every name, every request,
+every primitive / array / flat-object / deepObject schema with distinct property names — the verdict of
+ValidateParameter is the specification's verdict outside CookieExplode, EnumGoType, QueryObjAbsent, QueryObjNoProps. -/
+theorem validate_eq_spec_partial (p : Param) (r : Req) (l : Leaf) (hs : p.schema = .leaf l) (hwf : leafWF l)
+    (hdeep : ∀ sp rq, l = .deep sp rq → p.cell.loc = .query ∧ p.cell.style = .deepObject)
+    (h1 : CookieExplode p = false) (h2 : EnumGoType p = false) (h3 : QueryObjAbsent p r = false)
+    (h4 : QueryObjNoProps p = false) :
+    validateParameter p r = validateSpec p r := by
+  unfold validateParameter validateSpec
+  rw [decodeStyled_impl_eq_spec_partial p r (by rw [hs]; intro l' hl'; simp [schLeaves] at hl'; subst hl'; exact hdeep) h1 h3 h4]
+  have hg : leafEnumGoType l = false := by
+    simpa [EnumGoType, hs, schLeaves] using h2
+  obtain ⟨c, name, req, ae, sch⟩ := p
+  simp only at hs ⊢
+  subst hs
+  have hty : TypedVal l (decodeStyled spec c name req r (.leaf l)).val := by
+    unfold decodeStyled
+    split
+    · exact typed_nil l
+    · exact decodeLeaf_typed spec (by simp [spec, specPrim_eq_parsePrim]) c name r l hwf
+  have hv : visitSch enumHitImpl deepEqImpl (.leaf l) (decodeStyled spec c name req r (.leaf l)).val =
+      visitSch enumHitSpec enumHitSpec (.leaf l) (decodeStyled spec c name req r (.leaf l)).val :=
+    visitLeaf_eq l _ hwf hg hty
+  simp only [decide', hv]
+
+/-- … and for **every composition** (allOf / anyOf / oneOf over leaves, as well as single leaves) whose leaves carry
+no `enum`: code = specification outside the three decoder-level classes, for every value the decoder may hand over —
+EnumGoType cannot arise. (With enums in a composition a value read by one alternative is compared with another
+alternative's enum; that case is tied by the differential run.) -/
+theorem validate_eq_spec_enumfree_partial (p : Param) (r : Req)
+    (hfree : (schLeaves p.schema).all leafEnumFree = true)
+    (hdeep : ∀ l ∈ schLeaves p.schema, ∀ sp rq, l = .deep sp rq → p.cell.loc = .query ∧ p.cell.style = .deepObject)
+    (h1 : CookieExplode p = false) (h3 : QueryObjAbsent p r = false) (h4 : QueryObjNoProps p = false) :
+    validateParameter p r = validateSpec p r := by
+  unfold validateParameter validateSpec
+  rw [decodeStyled_impl_eq_spec_partial p r hdeep h1 h3 h4]
+  simp only [decide', visitSch_enumFree enumHitImpl deepEqImpl enumHitSpec enumHitSpec p.schema _ hfree]
+
+example : let p : Param := ⟨⟨.query, .pipeDelimited, false⟩, ['p'], true, false,
+      .oneOf [.arr { t := .integer } (some 2) none [], .prim { t := .string }]⟩
+    (schLeaves p.schema).all leafEnumFree = true ∧ CookieExplode p = false ∧
+    QueryObjAbsent p { query := [(['p'], ["1|2".toList])] } = false ∧ QueryObjNoProps p = false ∧
+    validateParameter p { query := [(['p'], ["1|2".toList])] } = .accept := by decide
+
+/-- non-vacuity: the hypotheses hold for a required matrix-style object parameter with an additionalProperties schema -/
+example : let p : Param := ⟨⟨.path, .matrix, true⟩, "id".toList, true, false,
+      .leaf (.obj [(['a'], { t := .int32, max := some 6 }), (['b'], { t := .string, enum := [.str ['x']] })] [['a']] (some { t := .integer }))⟩
+    CookieExplode p = false ∧ EnumGoType p = false ∧ QueryObjAbsent p { path := some ";a=5;b=x;z=7".toList } = false ∧
+    QueryObjNoProps p = false ∧ validateParameter p { path := some ";a=5;b=x;z=7".toList } = .accept ∧
+    validateParameter p { path := some ";a=7;b=x".toList } = .schema := by decide
 
 /-! ### witnesses: inside each class the code's verdict differs from the specification's -/
 
